@@ -821,14 +821,31 @@ func c05MergeFold(c *Ctx, ct collapsingType) {
 				for d := b; d != nil; d = d.Idom() {
 					if iff, ok := d.Instrs[len(d.Instrs)-1].(*ssa.If); ok && d != b {
 						ctm := tc.Of(iff.Cond)
-						if ctm.isBin("<") {
-							x, y := ctm.Args[0], ctm.Args[1]
-							isRecvEdge := func(t *Term, fld string) bool {
-								return t.Op == "field" && t.Sym == fld && isRecvField(t.Args[0], ct.innerFld)
+						// which successor of the test leads to the store
+						branch := -1
+						for si, sc := range d.Succs {
+							if sc == b || sc.Dominates(b) {
+								if branch == -1 {
+									branch = si
+								} else {
+									branch = -2 // both: the test does not control the store
+								}
 							}
-							if lowest && x.Key() == idx.Key() && isRecvEdge(y, dr.minIndex) || !lowest && y.Key() == idx.Key() && isRecvEdge(x, dr.maxIndex) {
-								guarded = true
-							}
+						}
+						isRecvEdge := func(t *Term, fld string) bool {
+							return t.Op == "field" && t.Sym == fld && isRecvField(t.Args[0], ct.innerFld)
+						}
+						if len(ctm.Args) != 2 {
+							continue
+						}
+						x, y := ctm.Args[0], ctm.Args[1]
+						switch {
+						// idx < s.minIndex holds (lowest) / s.maxIndex < idx holds (highest): true branch
+						case ctm.isBin("<") && branch == 0 && (lowest && x.Key() == idx.Key() && isRecvEdge(y, dr.minIndex) || !lowest && y.Key() == idx.Key() && isRecvEdge(x, dr.maxIndex)):
+							guarded = true
+						// the same fact as the failed negation: s.minIndex <= idx false / idx <= s.maxIndex false
+						case ctm.isBin("<=") && branch == 1 && (lowest && y.Key() == idx.Key() && isRecvEdge(x, dr.minIndex) || !lowest && x.Key() == idx.Key() && isRecvEdge(y, dr.maxIndex)):
+							guarded = true
 						}
 					}
 				}
